@@ -331,7 +331,7 @@ pub fn check_serialise(c: &SerialiseCase, info: &mut CaseInfo) -> Result<(), Str
 	let mut spec = CertSpec::minimal();
 	spec.kid = KidSpec::Pre(Hex(vec![1]));
 	spec.dn = DnSpec(c.values.iter().enumerate().map(|(i, v)| (DnTypeSpec::Custom(vec![1, 3, 6, 1, 4, 1, 55555, i as u64]), v.clone())).collect());
-	for v in c.values.iter().filter(|v| v.kind == StrKind::Ia5).take(40) {
+	for v in c.values.iter().filter(|v| v.kind == StrKind::Ia5 && v.admitted()).take(40) {
 		spec.sans.push(SanSpec::Dns(v.text.clone()));
 		spec.sans.push(SanSpec::Rfc822(v.text.clone()));
 		spec.sans.push(SanSpec::Uri(v.text.clone()));
@@ -363,7 +363,7 @@ fn serialise_sweep(cfg: &RunCfg) -> Vec<SerialiseCase> {
 					char::from_u32(u.wrapping_sub(d)).map_or(true, |x| kind.admits(x) != kind.admits(ch)) || char::from_u32(u + d).map_or(true, |x| kind.admits(x) != kind.admits(ch))
 				});
 				if kind.admits(ch) && (u % stride == 0 || boundary || u < 0x100) {
-					vals.push(DnValueSpec { kind, text: ch.to_string() });
+					vals.push(DnValueSpec::new(kind, ch.to_string()));
 				}
 			}
 			u += 1;
